@@ -364,6 +364,14 @@ end
 @[simp] theorem evalBin_eqs (a b : Bytes) : evalBin .eq (.bytes a) (.bytes b) = .ok (.bool (a == b)) := id rfl
 @[simp] theorem evalBin_nes (a b : Bytes) : evalBin .ne (.bytes a) (.bytes b) = .ok (.bool (a != b)) := id rfl
 
+@[simp] theorem evalBin_eql (a b : List Val) : evalBin .eq (.list a) (.list b) = .ok (.bool (Val.beqs a b)) := id rfl
+@[simp] theorem evalBin_nel (a b : List Val) : evalBin .ne (.list a) (.list b) = .ok (.bool (!Val.beqs a b)) := id rfl
+@[simp] theorem beqs_nil_nil : Val.beqs [] [] = true := by simp [Val.beqs]
+@[simp] theorem beqs_nil_cons (b : Val) (bs : List Val) : Val.beqs [] (b :: bs) = false := by simp [Val.beqs]
+@[simp] theorem beqs_cons_nil (a : Val) (as : List Val) : Val.beqs (a :: as) [] = false := by simp [Val.beqs]
+@[simp] theorem beqs_cons_cons (a b : Val) (as bs : List Val) :
+    Val.beqs (a :: as) (b :: bs) = (Val.beq a b && Val.beqs as bs) := by simp [Val.beqs]
+@[simp] theorem beq_int (a b : Int) : Val.beq (.int a) (.int b) = (a == b) := by simp [Val.beq]
 @[simp] theorem lenVal_bytes (s : Bytes) : lenVal (.bytes s) = .ok (.int s.length) := id rfl
 @[simp] theorem lenVal_list (s : List Val) : lenVal (.list s) = .ok (.int s.length) := id rfl
 @[simp] theorem asInt_int (v : Int) : asInt (.int v) = .ok v := id rfl
@@ -459,6 +467,44 @@ theorem rangeRun_fold {α β : Type} (body : State → Out) (k v : LV) (abs : α
     simp only [List.map_cons, rangeRun, h, List.zipIdx_cons, List.foldl_cons]
     exact rangeRun_fold body k v abs enc step h ys (i + 1) (step a i y)
 
+/-- `rangeRun_fold` for bodies that read the ranged slice through its index (`for i := range xs { … xs[i] … }`): the
+    step hypothesis may use that `y` IS the element at position `i` of the whole slice `all`. -/
+theorem rangeRun_fold_at {α β : Type} (body : State → Out) (k v : LV) (abs : α → State) (enc : β → Val)
+    (step : α → Nat → β → α) (all : List β)
+    (h : ∀ (a : α) (i : Nat) (y : β), all[i]? = some y →
+      body (((abs a).assign1 k (.int i)).assign1 v (enc y)) = .normal (abs (step a i y))) :
+    ∀ (ys : List β) (i : Nat) (a : α), all.drop i = ys →
+      rangeRun body k v (ys.map enc) i (abs a) = .normal (abs ((ys.zipIdx i).foldl (fun a p => step a p.2 p.1) a))
+  | [], _, _, _ => rfl
+  | y :: ys, i, a, hd => by
+    have hy : all[i]? = some y := by
+      have := congrArg (fun l => l[0]?) hd
+      simpa using this
+    have hd' : all.drop (i + 1) = ys := by
+      have := congrArg (List.drop 1) hd
+      simpa [List.drop_drop, Nat.add_comm] using this
+    simp only [List.map_cons, rangeRun, h a i y hy, List.zipIdx_cons, List.foldl_cons]
+    exact rangeRun_fold_at body k v abs enc step all h ys (i + 1) (step a i y) hd'
+
+theorem zipIdx_map_fst {β γ : Type} (f : β → γ) : ∀ (l : List β) (k : Nat), (l.zipIdx k).map (fun q => f q.1) = l.map f
+  | [], _ => rfl
+  | b :: l, k => by simp [List.zipIdx_cons, zipIdx_map_fst f l (k + 1)]
+
+theorem zipIdx_flatMap_fst {β γ : Type} (f : β → List γ) :
+    ∀ (l : List β) (k : Nat), (l.zipIdx k).flatMap (fun q => f q.1) = l.flatMap f
+  | [], _ => rfl
+  | b :: l, k => by simp [List.zipIdx_cons, zipIdx_flatMap_fst f l (k + 1)]
+
+theorem indexVal_list_map {β : Type} (enc : β → Val) (all : List β) (i : Nat) (y : β) (h : all[i]? = some y) :
+    indexVal (.list (all.map enc)) (.int i) = .ok (enc y) := by
+  have hlt : i < all.length := by
+    rcases Nat.lt_or_ge i all.length with hl | hl
+    · exact hl
+    · rw [List.getElem?_eq_none hl] at h; cases h
+  rw [indexVal_list _ i (by simpa using hlt)]
+  simp [List.getElem?_eq_getElem hlt] at h
+  simp [h]
+
 /-! ## counted / conditional loops under an invariant -/
 
 /-- A loop whose iterations neither break nor return.  `abs` maps an abstract loop state to the concrete state at
@@ -503,6 +549,10 @@ def Stmt.lpost : Stmt → Stmt
   | _ => .skip
 def Stmt.lbody : Stmt → Stmt
   | .loop _ _ b => b
+  | _ => .skip
+
+def Stmt.rbody : Stmt → Stmt
+  | .range _ _ _ b => b
   | _ => .skip
 
 /-- The relational form of `loop_fold`, for loops whose final state is best described by an invariant: the loop
